@@ -105,6 +105,13 @@ def main():
         meta["detected_by"] = [x["cmd"].split("check.sh ")[1].split()[0] for x in meta["ran"] if x["exit"] == 1]
     out = os.path.join(VERIF, "seeded", a.name)
     os.makedirs(out, exist_ok=True)
+    old_meta = os.path.join(out, "meta.json")
+    if os.path.exists(old_meta):
+        try:
+            om = json.load(open(old_meta))
+            meta["earlier_runs"] = om.get("earlier_runs", []) + [dict(r, note="before the checks were strengthened") for r in om.get("ran", [])]
+        except Exception:
+            pass
     for f in ("patch.diff", "demo.py", "notes.md"):
         if os.path.exists(os.path.join(a.seed_dir, f)):
             shutil.copy(os.path.join(a.seed_dir, f), os.path.join(out, f))
